@@ -361,6 +361,9 @@ func c01Tables(rng *rand.Rand, n int, args []string) {
 			k.emptyProb = 35
 		}
 		g := genCFG(rng, k).reduced()
+		if tried%4 == 3 {
+			g = recursiveInputCFG(rng).reduced()
+		}
 		if g == nil || len(g.rules) == 0 {
 			continue
 		}
@@ -400,4 +403,30 @@ func capLen(strs [][]int, n int) [][]int {
 		}
 	}
 	return strs
+}
+
+// recursiveInputCFG: the input nonterminal N0 is left-recursive through N1, and N1 (or N0) is also used elsewhere,
+// so that the state reached from the start state on N0 is shared with inner contexts (the accepting state must
+// then be a private copy): N0: N1 | t | l N1 r ...; N1: N0 t t | N0 t ... .
+func recursiveInputCFG(rng *rand.Rand) *cfg {
+	g := &cfg{nterms: 4 + rng.Intn(4), nnonterms: 2}
+	n0, n1 := g.nterms, g.nterms+1
+	term := func() int { return 1 + rng.Intn(g.nterms-1) }
+	g.rules = append(g.rules, cfgRule{lhs: n0, rhs: []int{n1}}, cfgRule{lhs: n0, rhs: []int{term()}})
+	for k := rng.Intn(3); k > 0; k-- {
+		inner := n1
+		if rng.Intn(3) == 0 {
+			inner = n0
+		}
+		g.rules = append(g.rules, cfgRule{lhs: n0, rhs: []int{term(), inner, term()}})
+	}
+	for k := 1 + rng.Intn(4); k > 0; k-- {
+		rhs := []int{n0, term()}
+		for j := rng.Intn(2); j > 0; j-- {
+			rhs = append(rhs, term())
+		}
+		g.rules = append(g.rules, cfgRule{lhs: n1, rhs: rhs})
+	}
+	g.inputs = []cfgInput{{nt: n0, eoi: rng.Intn(3) != 0}}
+	return g
 }
